@@ -325,3 +325,22 @@ def observe_div(fx, np, props, tx, ty, cxs, cys, method='raw', rnd='trunc', rout
                     v=[0] * n, **res)
     except Exception as ex:
         return dict(base, k='error', err=type(ex).__name__, msg=str(ex)[:200], cx=[wint(c) for c in cxs[:3]], cy=[wint(c) for c in cys[:3]])
+
+
+def observe_carith(fx, np, props, op, tx, ty, cxr, cxi, cyr, cyi, route='operator'):
+    """EXTENSION (extra conformance): + - * of complex operands built from exact component codes."""
+    base = {'k': 'carith', 'p': list(props), 'op': op, 'x': dict(zip('swf', (bool(tx[0]), tx[1], tx[2]))),
+            'y': dict(zip('swf', (bool(ty[0]), ty[1], ty[2]))), 'route': route + '/complex', 'carrier': 'array', 'agg': True}
+    try:
+        X = fx.Fxp(np.array(cxr) + 1j * np.array(cxi), bool(tx[0]), tx[1], tx[2], raw=True)
+        Y = fx.Fxp(np.array(cyr) + 1j * np.array(cyi), bool(ty[0]), ty[1], ty[2], raw=True)
+        Z = apply(fx, np, op, X, Y, route)
+        zv = np.asarray(Z.val).ravel()
+        for v in zv:
+            if float(v.real) != int(v.real) or float(v.imag) != int(v.imag):
+                raise ValueError('non-integral complex code')
+        fl = common.flags_of(Z)
+        return dict(base, z=fmt_of(Z), cxr=[wint(c) for c in cxr], cxi=[wint(c) for c in cxi], cyr=[wint(c) for c in cyr], cyi=[wint(c) for c in cyi],
+                    czr=[wint(int(v.real)) for v in zv], czi=[wint(int(v.imag)) for v in zv], fo=[fl['o']], fu=[fl['u']], fi=[fl['i']], v=[0] * len(cxr))
+    except Exception as ex:
+        return dict(base, k='error', p=['X-complex'], err=type(ex).__name__, msg=str(ex)[:200])
